@@ -12,7 +12,11 @@ Saml2Client.parse_authn_request_response); the Lean model is the same: the glue 
 the converters return.  Glue to_local cases with "groups"/"layout" distribute the wire attributes over several
 AttributeStatements, Advice assertions and (AuthnResponse object only) several assertions; the model is then
 `getIdentity` (per statement `list_to_local`, merged with dict.update: a later statement replaces a local name
-of an earlier one).
+of an earlier one).  to_local cases whose values carry "xsi_type"/"nil" are written by the harness's own XML
+writer (the AttributeValue forms peers send: xs:/xsd:/foreign/rebound/unprefixed types, matching and non-matching
+lexical forms, xsi:nil) and parsed by saml.attribute_from_string; the model's `parsedText` says which local type
+names convert (integer/short/int/long, float/double, boolean, date - the prefix is ignored by the code) with
+Python's own int/float/strptime as an oracle per value, every other type preserves the text.
 
 Case kinds (`op`):
   to_wire    identity -> wire attributes            (from_local / acs[i].to_)
@@ -44,7 +48,8 @@ RULE = ("every (map, attribute) pair of the bundled maps in both directions and 
         "{converters called directly, through Assertion.construct/AuthnResponse objects configured from a real "
         "SPConfig, through Server.create_*_response and Saml2Client.parse_authn_request_response} x container "
         "structure on receipt (1-4 attribute statements, Advice assertions, several assertions, empty statements, "
-        "the same attribute in two statements); "
+        "the same attribute in two statements) x AttributeValue wire forms (33 xsi:type values x matching / "
+        "non-matching lexical forms x xsi:nil x padding); "
         "non-trivial = the model path is not a set-up error or a pure string-operation case")
 TRUSTED = [
     "Gen/AttrMaps.lean is regenerated from the imported saml2.attributemaps modules by harness/translate/attrmaps.py",
@@ -65,6 +70,9 @@ ASSUMPTIONS = [
     "a directory of map modules), from_local's own choice of the sending converter, statements that can be "
     "serialised, and - for the full Saml2Client path - attributes with a non-empty Name; an absent attribute "
     "statement is read as None exactly when no map of the set has the requested name format",
+    "typed AttributeValues: int()/float()/strptime and the boolean table are an oracle computed by the harness with "
+    "the same Python built-ins; a statement with a value that does not fit its declared type is refused by the "
+    "parser (model: raised, specification silent); mixed content inside AttributeValue is not generated (C12)",
     "EncryptedAttribute elements are not produced (the xmlsec1 stand-in has no text-encryption mode): "
     "AuthnResponse.decrypt_attributes runs on statements without encrypted attributes only; a Response carries "
     "exactly one assertion (the real client rejects any other number), several assertions are exercised on the "
@@ -453,8 +461,78 @@ def _canon_attr(a):
     return {"name": a.name, "nf": a.name_format, "fn": a.friendly_name, "values": vals}
 
 
+class _ParseRefused(Exception):
+    """pysaml2 refused to parse an AttributeValue (text does not fit the declared xsi:type)."""
+
+
+WIRE_NS = ('xmlns:saml="urn:oasis:names:tc:SAML:2.0:assertion" xmlns:xsi="http://www.w3.org/2001/XMLSchema-instance" '
+           'xmlns:xs="http://www.w3.org/2001/XMLSchema" xmlns:xsd="http://www.w3.org/2001/XMLSchema" '
+           'xmlns:schema="http://www.w3.org/2001/XMLSchema" xmlns:eidas="http://eidas.europa.eu/attributes/naturalperson" '
+           'xmlns:custom="urn:x-c17:types" xmlns:foo="urn:x-c17:foo"')
+
+
+def _xattr(s):
+    for a, b in (("&", "&amp;"), ("<", "&lt;"), ('"', "&quot;"), ("\t", "&#9;"), ("\n", "&#10;"), ("\r", "&#13;")):
+        s = s.replace(a, b)
+    return s
+
+
+def _xtext(s):
+    return s.replace("&", "&amp;").replace("<", "&lt;").replace(">", "&gt;")
+
+
+def _is_typed(j):
+    return any("xsi_type" in v or "nil" in v for v in j.get("values") or [])
+
+
+def _attr_xml(j):
+    """An <Attribute> as a peer writes it (own writer: pysaml2 itself only emits xs: types)."""
+    out = ["<saml:Attribute %s" % WIRE_NS]
+    for k, n in (("name", "Name"), ("nf", "NameFormat"), ("fn", "FriendlyName")):
+        if j.get(k) is not None:
+            out.append(' %s="%s"' % (n, _xattr(j[k])))
+    out.append(">")
+    for v in j["values"]:
+        out.append("<saml:AttributeValue")
+        if v.get("xsi_type") is not None:
+            out.append(' xsi:type="%s"' % _xattr(v["xsi_type"]))
+        if v.get("nil"):
+            out.append(' xsi:nil="true"')
+        out.append(">%s</saml:AttributeValue>" % _xtext(v.get("text") or ""))
+    out.append("</saml:Attribute>")
+    return "".join(out)
+
+
+def conv_oracle(raw):
+    """What Python's own int / float / strptime and the xs:boolean table make of a text (absent: refused)."""
+    import datetime
+
+    o = {}
+    try:
+        o["int"] = str(int(raw))
+    except ValueError:
+        pass
+    try:
+        o["float"] = str(float(raw))
+    except (ValueError, OverflowError):
+        pass
+    if raw.lower() in ("true", "false"):
+        o["bool"] = raw.lower()
+    try:
+        o["date"] = str(datetime.datetime.strptime(raw, "%Y-%m-%d").date())
+    except ValueError:
+        pass
+    return o
+
+
 def _mk_attr(j):
     from saml2 import ExtensionElement, saml
+
+    if _is_typed(j):
+        try:
+            return saml.attribute_from_string(_attr_xml(j))
+        except ValueError as e:  # "Type and value do not match"
+            raise _ParseRefused(str(e))
 
     a = saml.Attribute(name=j.get("name"), name_format=j.get("nf"), friendly_name=j.get("fn"))
     if j.get("values") is None:
@@ -530,7 +608,10 @@ def run_impl(case):
             return {"r": "none"}
         return {"r": "ok", "attrs": [_canon_attr(a) for a in w]}
     if op == "to_local":
-        attrs = [_mk_attr(j) for j in case["attrs"]]
+        try:
+            attrs = [_mk_attr(j) for j in case["attrs"]]
+        except _ParseRefused:
+            return {"r": "raised"}
         if case.get("xml"):
             attrs = _via_xml(attrs)
         try:
@@ -579,7 +660,10 @@ def _run_glue(case):
             return {"r": "raised"}
         return {"r": "ok", "ava": _canon_local(d)}
     if op == "to_local":
-        attrs = [_mk_attr(j) for j in case["attrs"]]
+        try:
+            attrs = [_mk_attr(j) for j in case["attrs"]]
+        except _ParseRefused:
+            return {"r": "raised"}
         if case.get("groups") is not None and not all(0 <= j < len(attrs) for g in case["groups"] for j in g):
             raise ValueError("statement refers to an attribute the case does not have")
         if glue == "objects":
@@ -1043,6 +1127,56 @@ def gen_statement(rng, maps, xml):
     return attrs
 
 
+XSI_TYPES = [None, None, "xs:string", "xsd:string", "xs:anyURI", "xs:integer", "xs:int", "xs:long", "xs:short", "xs:boolean",
+             "xs:base64Binary", "xs:dateTime", "xs:date", "xs:float", "xs:double", "xs:anyType", "xs:unknownThing",
+             "eidas:CurrentFamilyNameType", "eidas:string", "custom:Thing", "foo:integer", "foo:boolean", "schema:string",
+             "schema:integer", "schema:date", "CustomType", "integer", "string", "boolean", "", ":x", "a:b:c", "xs:"]
+TYPED_TEXTS = {
+    "int": ["5", " 007 ", "+5", "-12", "0", "1_000", "12345678901234567890"],
+    "float": ["1e3", " 2.50 ", "nan", "1", "-0", "1e400", ".5"],
+    "bool": ["true", "TRUE", "False"],
+    "date": ["2020-01-31", "1999-12-01"],
+    "other": ["Garcia", " padded ", "", "\u00fc", "urn:x:y", "QUJD", "2020-01-01T00:00:00Z", "abc", "1.5", "1", " true", "31.1.2020",
+              "<&>", "a b"],
+}
+
+
+def gen_typed_value(rng):
+    """An AttributeValue as peers send it: declared type x lexical form (mostly matching the type)."""
+    t = rng.choice(XSI_TYPES)
+    local = (t or "").split(":", 1)[-1]
+    kind = {"integer": "int", "int": "int", "long": "int", "short": "int", "float": "float", "double": "float",
+            "boolean": "bool", "date": "date"}.get(local, "other")
+    if kind != "other" and rng.random() < 0.12:
+        kind = rng.choice(["other", "int", "float", "bool", "date"])  # a lexical form of another type
+    text = rng.choice(TYPED_TEXTS[kind])
+    if rng.random() < 0.15:
+        text = rng.choice([" ", "\n", ""]) + text + rng.choice([" ", "\t", ""])
+    v = {"text": text, "ext": [], "xsi_type": t, "conv": conv_oracle(text)}
+    c = rng.randrange(12)
+    if c == 0:
+        v["text"], v["nil"], v["conv"] = None, True, {}
+    elif c == 1:
+        v["nil"] = True
+    if t is None:
+        del v["xsi_type"]
+        if not v.get("nil"):
+            v["nil"] = False  # still written by the harness's own XML writer
+    return v
+
+
+def gen_typed_statement(rng, maps):
+    """A statement whose values carry the xsi:type / xsi:nil forms peers send (text values only)."""
+    attrs = gen_statement(rng, maps, True)
+    out = []
+    for a in attrs:
+        if a.get("values") is None:
+            continue
+        a["values"] = [gen_typed_value(rng) for _ in range(rng.choice([1, 1, 2, 3]))]
+        out.append(a)
+    return out
+
+
 def _fro_names(m):
     """Wire names as a peer would write them: the keys of "fro" (or the values of "to")."""
     if m["fro"] is not None:
@@ -1260,6 +1394,20 @@ def _gen_cases(rng, tier):
         g = glue_variant(rng, base)
         if g is not None:
             yield g
+
+    # wire forms of AttributeValue that peers send (xsi:type / xsi:nil), directly and through the glue
+    for _ in range(500 if tier == "quick" else 6000):
+        idx = rng.choice([full, full, [rng.randrange(n)], [1, 2, 3, 4][:n]])
+        sub = [maps[i] for i in idx]
+        base = {"op": "to_local", "maps": {"bundled": idx}, "allow": rng.random() < 0.5, "xml": True,
+                "attrs": gen_typed_statement(rng, sub)}
+        if not base["attrs"]:
+            continue
+        yield base
+        if rng.random() < 0.6:
+            g = glue_variant(rng, json.loads(json.dumps(base)))
+            if g is not None:
+                yield g
 
     # random custom map sets
     for _ in range(500 if tier == "quick" else 6000):
